@@ -15,25 +15,28 @@ FUNCTIONS = ["wannierberri.w90files.eig.EIG.to_w90_file/from_w90_file", "wannier
              "wannierberri.w90files.utility.convert/str2arraymmn", "wannierberri.w90files.io.SavableNPZ.to_npz/from_npz/as_dict/from_dict",
              "wannierberri.w90files.io.dic_to_keydic/keydic_to_dic/sparselist_to_dict", "wannierberri.w90files.w90file.W90_file.__init__/equals/check_shape",
              "AMN/MMN/SOC/BKVectors/CheckPoint/WIN/SPN/UIU/UHU/SIU/SHU/UNK constructors", "wannierberri.w90files.wandata.WannierData.write/to_npz/from_npz/set_file/check_conform"]
-BOUNDS = dict(quick=dict(mmn_neighbour_order="MMN objects built from arrays (identity bk_reorder) and MMN objects read from a file whose neighbour order is any permutation "
+BOUNDS = dict(quick=dict(field_overflow="EIG NK<=2, NB<=2 and AMN with 1-2 entries: every choice of at most one '{:w.pf}' field that fills/exceeds its width (N fields -> N+1 paths)", mmn_neighbour_order="MMN objects built from arrays (identity bk_reorder) and MMN objects read from a file whose neighbour order is any permutation "
                          "(symbolic, NNB=2,3; rotated per k-point) of the BKVectors order", NK="1..2 (text; mmn on k-grids 1x1x1, 2x1x1, 1x2x1), 1 and 3 (npz)", NB="1..3", NW="1..2", NNB="2", data="symbolic real / complex",
                          stored_kpoints="every non-empty subset of range(NK) for npz (given as dict and as list with None), all k for the text files"),
-              thorough=dict(mmn_neighbour_order="as quick, NNB=2,3,4 (all 24 orders)", NK="1..4 (text; mmn also on 2x2x1, 3x1x1, 2x1x2), 1..4 (npz)", NB="1..4", NW="1..3", NNB="2, 4", data="symbolic real / complex",
+              thorough=dict(field_overflow="as quick", mmn_neighbour_order="as quick, NNB=2,3,4 (all 24 orders)", NK="1..4 (text; mmn also on 2x2x1, 3x1x1, 2x1x2), 1..4 (npz)", NB="1..4", NW="1..3", NNB="2, 4", data="symbolic real / complex",
                             stored_kpoints="every non-empty subset of range(NK) for npz (dict and sparse list), all k for the text files"))
 EXPLANATION = ("The real writers run on symbolic data: format(SymC, spec) leaves a token in the in-memory file, the real readers parse the token file "
                "(str.split / loops / reshapes / transposes run unchanged) and each token read back is a fresh real within half a unit of the last printed digit "
                "(the value itself for repr).  z3 decides, per entry, that the value read at [ik, ...] is the one written at [ik, ...] to printed precision, and that equals() holds.  "
                "npz: an in-memory store with numpy's savez/load contract; identity of every attribute after as_dict/keydic/from_dict is decided by z3.")
-ASSUMPTIONS = ["the same BKVectors object is given to MMN.to_w90_file and to the reader",
+ASSUMPTIONS = ["field-overflow cases: at most one fixed-point field per file fills or exceeds its width (x >= 10^(w-p-2) or x <= -10^(w-p-3) for '{:w.pf}'); the other cases make no "
+               "assumption on magnitudes but render every number inside its field",
+               "the same BKVectors object is given to MMN.to_w90_file and to the reader",
                "text files contain all NK k-points (the Wannier90 formats have no notion of a k-point subset)"]
-OUTSIDE = ["decimal rendering itself (a token stands for 'x rounded to the printed digits'); field-width overflow of very large numbers",
+OUTSIDE = ["decimal rendering itself (a token stands for 'x rounded to the printed digits'); more than one overflowing field per file; overflow of integer fields "
+           "(band / k-point counters > 9999 are concrete and rendered by Python itself); overflow of '%e' fields (3-digit exponents)",
            "readers of files produced by Wannier90 / pw2wannier90 themselves (only write->read of this code)",
            "binary formats (.spn/.uHu/.uIu/.sHu/.sIu/.unk/.chk) have no writer; SymmetrizerSAWF npz (needs DFT data); multiprocessing itself",
            "WannierData.from_npz with its default `files` list does not look for win/soc; the container check passes the list of files explicitly",
            "BKVectors.equals (inherited from W90_file, raises AttributeError: no NB/data) - BKVectors is not a Wannier90 file; its attributes are compared directly",
            "AMN.equals on data that differ within the print precision (complex modulus); AMN.equals is checked on exactly equal data (npz)",
            "sizes above the stated bounds"]
-STUBS = ["open (eig/amn/mmn modules): symx.tok.MemFS", "np.loadtxt / np.array(list of str, dtype=float) (eig, utility): tokens -> symx.tok.sym_float",
+STUBS = ["open (eig/amn/mmn modules): symx.tok.MemFS", "symx.tok.overflow_model: a fixed-point field that fills its width is rendered without left padding (opt-in, overflow cases only)", "np.loadtxt / np.array(list of str, dtype=float) (eig, utility): tokens -> symx.tok.sym_float",
          "multiprocessing.Pool (amn, mmn): serial map; cpu_count -> 1", "np.savez / np.savez_compressed / np.load (io): in-memory store, values converted with np.asanyarray as numpy does, "
          "'.npz' appended to the name like numpy, object arrays without symbolic content refuse to load (allow_pickle=False)",
          "np.isclose/np.allclose (w90file.equals): numpy's definition |a-b| <= atol + rtol*|b| as a z3 term for real entries", "os.makedirs (wandata): no-op", "datetime.now in the amn header: real"]
@@ -168,6 +171,7 @@ class _OS:
 def install():
     """shadow every w90files module with the text-aware proxy and one in-memory file system"""
     fs = tok.MemFS()
+    tok.overflow_model(False)
     p = TokNp(fs)
     for m in (M_EIG, M_AMN, M_MMN, M_UT, M_IO, M_WF, M_BK, M_CHK, M_SOC, M_XXU, M_SPN, M_UNK, M_WIN, M_WD):
         m.np = p
@@ -217,17 +221,18 @@ def subdict(full, keys):
 
 
 # ---------------------------------------------------------------------------------------------------- text round trips
-def case_eig(rec, sizes):
+def case_eig(rec, sizes, overflow=False):
     for NK, NB in sizes:
-        _eig(rec, NK, NB)
+        _eig(rec, NK, NB, overflow)
 
 
-def _eig(rec, NK, NB):
+def _eig(rec, NK, NB, overflow=False):
     fs, p = install()
     E = symvec("E", (NK, NB))
 
     def body(rec):
-        rec.witness = lambda env: dict(kind="eig", data=env.arr(E))
+        tok.overflow_model(overflow)
+        rec.witness = lambda env: dict(kind="eig", data=env.arr(E), overflowing_field=float(env["ovf_field"]) if overflow else None)
         eig = M_EIG.EIG(data={ik: E[ik].copy() for ik in range(NK)}, NK=NK)
         eig.to_w90_file(SEED)
         back = M_EIG.EIG.from_w90_file(SEED)
@@ -239,17 +244,18 @@ def _eig(rec, NK, NB):
     rec.explore(body)
 
 
-def case_amn(rec, sizes):
+def case_amn(rec, sizes, overflow=False):
     for NK, NB, NW in sizes:
-        _amn(rec, NK, NB, NW)
+        _amn(rec, NK, NB, NW, overflow)
 
 
-def _amn(rec, NK, NB, NW):
+def _amn(rec, NK, NB, NW, overflow=False):
     fs, p = install()
     A = symvec("A", (NK, NB, NW), real=False)
 
     def body(rec):
-        rec.witness = lambda env: dict(kind="amn", data=env.arr(A))
+        tok.overflow_model(overflow)
+        rec.witness = lambda env: dict(kind="amn", data=env.arr(A), overflowing_field=float(env["ovf_field"]) if overflow else None)
         amn = M_AMN.AMN(data={ik: A[ik].copy() for ik in range(NK)}, NK=NK)
         amn.to_w90_file(SEED)
         back = M_AMN.AMN.from_w90_file(SEED)
@@ -561,6 +567,8 @@ def cases(tier, seed):
         grids += [((2, 2, 1), [(1, 0, 0), (0, 1, 0), (-1, 0, 0), (0, -1, 0)]), ((3, 1, 1), [(-1, 0, 0), (1, 0, 0)]), ((2, 1, 2), [(0, 0, 1), (1, 0, 0), (0, 0, -1), (-1, 0, 0)])]
     for mp, bkg in grids:
         out.append(Case(f"mmn text mp_grid={mp} NNB={len(bkg)} NB={(1, 2) if q else (1, 2, 3)}", case_mmn, dict(mp_grid=mp, bk_grid=bkg, NBs=(1, 2) if q else (1, 2, 3))))
+    out.append(Case("eig text, one value may fill / overflow its field (NK<=2, NB<=2)", case_eig, dict(sizes=[(1, 1), (1, 2), (2, 1), (2, 2)], overflow=True)))
+    out.append(Case("amn text, one value may fill / overflow its field (one entry; NK=1 NB=2 NW=1)", case_amn, dict(sizes=[(1, 1, 1), (1, 2, 1)], overflow=True)))
     rgrids = [((2, 1, 1), [(1, 0, 0), (-1, 0, 0)]), ((2, 2, 1), [(1, 0, 0), (-1, 0, 0), (0, 1, 0)])]
     if not q:
         rgrids += [((1, 1, 1), [(0, 0, 1), (0, 0, -1)]), ((2, 2, 1), [(1, 0, 0), (0, 1, 0), (-1, 0, 0), (0, -1, 0)]), ((3, 1, 2), [(-1, 0, 0), (0, 0, 1), (1, 0, 0)])]
